@@ -275,7 +275,8 @@ def exit_path(obs):
 
 def method_of(case):
     """How the answer to the hostile message has to be read: a response to HEAD carries no body whatever its Content-Length says."""
-    d = b''.join(case['chunks'][case.get('hostile_from', 0):]).lstrip(b'\r\n')
+    # (leading CR / LF / blanks / other control bytes in front of the method: a server that skips them has understood HEAD as well)
+    d = b''.join(case['chunks'][case.get('hostile_from', 0):]).lstrip(bytes(range(0x21)))
     # (also 'HEAD' followed by some other separator-like byte: a server that splits the request line on any white space has understood HEAD)
     return 'HEAD' if d[:4] == b'HEAD' and len(d) > 4 and not d[4:5].isalnum() else 'GET'
 
